@@ -19,6 +19,7 @@ EXPLANATION = (
     'done), pool_destroy runs destroy() before freeing the pool object, pool_create_v1 frees the object when init fails and nulls '
     '*pool on every failing return, memory_pool_allocator throws bad_alloc on null.  Heap integrity after an injected failure at '
     'every index, exactly-once return of every raw region and pool_identify correctness are NOT decided.')
+EXPLANATION += ' Added after the seeded-change rounds: ' + 'D2 also: a TLSData pointer that comes from getTLS (or a parameter that receives one untested) is dereferenced only where it was tested for null (one reasoned exception).'
 ASSUMPTIONS = ['errno is *__errno_location() (glibc)', 'Linux configuration']
 ND = ['heap integrity after an injected failure at every allocation index', 'exactly-once return of every raw region',
       'pool_identify correctness']
